@@ -67,6 +67,9 @@ func c18Values() map[string][]*ref.V {
 	msn = append(msn, ref.MapV(gen.Str, N, ref.StrV("a"), ref.NumV(1), ref.StrV("b"), ref.NumV(2), ref.StrV("c"), ref.NumV(3)),
 		ref.MapV(gen.Str, N, ref.StrV("c"), ref.NumV(3), ref.StrV("a"), ref.NumV(1), ref.StrV("b"), ref.NumV(2)),
 		ref.MapV(gen.Str, N, ref.StrV("b"), ref.NumV(2), ref.StrV("c"), ref.NumV(3), ref.StrV("a"), ref.NumV(1)))
+	// keys that differ only in case, or are equal after normalisation of neither kind
+	msn = append(msn, ref.MapV(gen.Str, N, ref.StrV("a"), ref.NumV(1), ref.StrV("A"), ref.NumV(2)), ref.MapV(gen.Str, N, ref.StrV("A"), ref.NumV(2), ref.StrV("a"), ref.NumV(1)),
+		ref.MapV(gen.Str, N, ref.StrV("A"), ref.NumV(1), ref.StrV("a"), ref.NumV(2)), ref.MapV(gen.Str, N, ref.StrV("a"), ref.NumV(1), ref.StrV("A"), ref.NumV(2), ref.StrV("B"), ref.NumV(3), ref.StrV("b"), ref.NumV(4)))
 	out["map[str,num]"] = msn
 	var mns []*ref.V
 	keys := []float64{1, 1 + 2e-9, 0.5, gen.Pow63, gen.Pow63 + 2048, 1e300, 1e301, -gen.Pow63, -1}
